@@ -6,7 +6,7 @@ import re
 
 from hypothesis import strategies as st
 
-from harness import core, gateways as gw, gen, recipes
+from harness import core, gateways as gw, gen, recipes, x_c04
 from harness.core import Result
 from harness.refs import multipart as mref
 
@@ -22,19 +22,50 @@ RULES = {
     "responses": "Hypothesis: every response recipe (8 classes, cookies, header operations) used as application and as view result; "
     "status, header multiset and body must be equal on both interfaces",
     "filegrid": "enumerated: FileResponse (size, chunk) pairs x Range shapes (shorter/longer than a chunk, multiples and non-multiples of it, ending "
-    "inside the file, multi-range, refused) x GET/HEAD x app/view result, compared across the two interfaces",
+    "inside the file, multi-range, refused) x GET/HEAD x app/view result x zero-copy send extension offered by the ASGI server or not, "
+    "compared across the two interfaces",
     "conditional": "Hypothesis: Files / Pages (bare and mounted) and FileResponse over files whose mtime and ctime are set apart through the harness's "
     "stat clock; a plain GET, then a revalidation built from the validators the server itself handed out (own Last-Modified, dates around "
     "mtime and ctime, own/weak/foreign ETag, Range + If-Range); non-trivial = mtime and ctime fall in different seconds",
     "apps": "Hypothesis: Router / Subpaths / Hosts compositions with echo and response leaves, Files / Pages over a generated tree with "
-    "Range and conditional headers, view decorators and middleware stacks; same comparison plus path parameters; non-trivial = the "
-    "request reaches a view or file (not a bare 404)",
+    "Range and conditional headers (optionally with a handle_404 application), view decorators and middleware stacks; same comparison "
+    "plus path parameters; non-trivial = the request reaches a view or file (not a bare 404)",
+    "presentations": "enumerated: 12 applications x 10 abstract requests x 4 pairs of presentations of the same abstract request: a PEP 3333 "
+    "environ that omits the empty SCRIPT_NAME / PATH_INFO / QUERY_STRING and / or carries the CGI variables real servers add (HTTPS, REQUEST_URI ...), an "
+    "ASGI scope without the optional keys (root_path, scheme, client, raw_path, spec_version), http.request messages without the optional "
+    "body / more_body keys, header pairs as lists; every presentation on one interface must agree with every presentation on the other",
+    "sequences": "enumerated: every sequence of 1..3 request accessors (body, json, form, stream - repetitions included) plus sequences around "
+    "close() and sequences whose last accessor lets its exception leave the view (answered through the HTTP-exception translation), on one "
+    "request object, x 10 bodies (none, JSON, JSON in latin-1, url-encoded with blank values, url-encoded in UTF-8, url-encoded that does not "
+    "decode, multipart with an upload, malformed JSON, multipart without boundary, multipart in a declared gbk charset); the outcome of every "
+    "step (value or exception class) and the answer must be the same on both interfaces",
+    "ctor": "enumerated: response constructions the random recipes do not draw - JSON keywords (indent, sort_keys, ensure_ascii), a caller's own "
+    "Content-Type / Content-Length header on every response class and edited afterwards, event streams with a charset and events without data, "
+    "cookie paths and repeated cookie names - as application and as view result, GET and HEAD",
+    "bulk": "enumerated: request bodies at the size limits of the request side - 323..326 multipart parts (fields, uploads, mixed), text fields "
+    "of more than 1 MiB, uploads across the 1 MiB spool limit, bodies longer than one 64 KiB read - in one piece and in slices",
+    "mounts": "enumerated: Subpaths (non-ASCII and nested prefixes, prefixes that are prefixes of one another, the default mount) x paths at, "
+    "below and beside the prefixes x root paths; Hosts tables x Host header present / absent x server names; leaves echo the request view",
+    "static": "enumerated: Files / Pages over a tree with non-ASCII, blank and reserved characters in directory names and a file larger than "
+    "one chunk, bare / mounted / with a handle_404 application, x paths x Range and conditional headers x zero-copy extension offered or not",
+    "inm_lines": "enumerated: Files / Pages (bare, mounted) and FileResponse, a plain GET and then a revalidation whose If-None-Match arrives on two "
+    "or three header lines - the file's own tag first / last / in the middle / absent, weak form, `*`, a list on one line, near-miss tags - alone "
+    "and next to If-Modified-Since, GET and HEAD",
+    "reuse": "enumerated: one response object (file, plain, JSON, empty, redirect, HTML) used as application for a sequence of requests "
+    "(plain, Range, HEAD, refused Range, zero-copy); every answer of the sequence must be the same on both interfaces",
+    "history": "enumerated: one Files / Pages application object per interface kept over a history of requests and file-system changes "
+    "(touch, rewrite, delete, create); every answer of the history must be the same on both interfaces",
 }
 ASSUMPTIONS = [
     "sanctioned difference: the hop-by-hop Connection header of the ASGI event-stream response; the random multipart/byteranges boundary and "
     "the wall-clock second of cookie Expires are normalised; reason phrase and body chunking are ignored",
     "header names without underscores (a WSGI environ cannot tell '_' from '-'); repeated request headers are joined with ', ' by the WSGI gateway as baize's header mapping does",
     "paths are valid UTF-8 (invalid UTF-8 belongs to C12)",
+    "presentations stay inside the specifications: only keys PEP 3333 / the ASGI HTTP specification call optional are left out, and only "
+    "when they carry their default; the ASGI zero-copy send extension counts as the ASGI interface (the server model reads the announced "
+    "file range itself)",
+    "If-None-Match is list-valued and is also sent on several lines (one list, RFC 7230 3.2.2); If-Modified-Since, Range and If-Range are "
+    "single-valued and stay on one line",
 ]
 
 
@@ -200,25 +231,28 @@ def oracle_conditional(case) -> Result:
                 "mtime+1": _httpdate(mtime + 1),
                 "ctime-1": _httpdate(ctime - 1),
             }
-            tags = {"own-etag": etag or '"none"', "weak-own": "W/" + (etag or '"none"'), "other": '"other"', "star": "*", "list": '"x", ' + (etag or '"y"')}
+            tags = {"own-etag": etag or '"none"', "weak-own": "W/" + (etag or '"none"'), "other": '"other"', "star": "*", "list": '"x", ' + (etag or '"y"'),
+                    "other2": 'W/"0123456789abcdef"', "other3": '"' + (etag or '"none"').strip('"')[:-1] + '"', "two-others": '"p", "q"'}
             hs = []
             for kind, key in case["conds"]:
                 if kind == "ims":
                     hs.append(["If-Modified-Since", stamps[key]])
                 elif kind == "inm":
                     hs.append(["If-None-Match", tags[key]])
+                elif kind == "inm-lines":  # one list-valued field on several header lines
+                    hs.extend(["If-None-Match", tags[k]] for k in key)
                 elif kind == "range":
                     hs.append(["Range", key])
                 elif kind == "if-range-date":
                     hs.append(["If-Range", stamps[key]])
                 elif kind == "if-range-tag":
                     hs.append(["If-Range", tags[key]])
-            names = [h[0] for h in hs]
+            names = [h[0] for h in hs if h[0] != "If-None-Match"]
             if len(set(names)) == len(names):
                 rq1 = gw.areq(method=case.get("method", "GET"), path=prefix + case["path"], headers=hs)
                 out1 = run_pair(app, rq1)
                 st1 = compare_runs(r, out1, f"app {app!r} clock mtime={mtime} ctime={ctime} revalidation {hs!r} of {case['path']!r}")
-                r.label(f"second={st1}", *[f"cond={k}:{v}" for k, v in case["conds"] if k != "range"])
+                r.label(f"second={st1}", *[f"cond={k}:{v if isinstance(v, str) else '+'.join(v)}" for k, v in case["conds"] if k != "range"])
                 r.nontrivial = int(mtime) != int(ctime)
     finally:
         vfs.clear_times(root)
@@ -245,8 +279,12 @@ def conditional_case(draw):
     keys = ["own-last-modified", "mtime", "ctime", "between", "before-both", "after-both", "mtime-1", "mtime+1", "ctime-1"]
     tkeys = ["own-etag", "weak-own", "other", "star", "list"]
     conds = []
-    mode = draw(st.integers(0, 5))
-    if mode <= 2:
+    mode = draw(st.integers(0, 6))
+    if mode == 6:
+        conds.append(["inm-lines", draw(st.lists(st.sampled_from(tkeys + ["other2", "other3", "two-others"]), min_size=2, max_size=3))])
+        if draw(st.booleans()):
+            conds.append(["ims", draw(st.sampled_from(keys))])
+    elif mode <= 2:
         conds.append(["ims", draw(st.sampled_from(keys))])
     elif mode == 3:
         conds.append(["inm", draw(st.sampled_from(tkeys))])
@@ -259,7 +297,131 @@ def conditional_case(draw):
     return {"app": app, "prefix": prefix, "path": path, "mtime": base, "ctime": base + delta, "conds": conds, "method": draw(st.sampled_from(["GET", "GET", "HEAD"]))}
 
 
-SUBS = {"echo": oracle_echo, "responses": oracle_responses, "apps": oracle_apps, "conditional": oracle_conditional, "filegrid": oracle_responses}
+
+# ------------------------------------------------------------------------------------------
+# oracles of the enumerated sub-checks
+
+
+def oracle_presentations(case) -> Result:
+    """The same abstract request in two presentations per interface: every WSGI presentation must agree with
+    every ASGI presentation (base x variant, variant x base, variant x variant; base x base is `echo`/`apps`)."""
+    r = Result()
+    rq, app = case["request"], case["app"]
+    wf, af = case["wsgi_flags"], case["asgi_flags"]
+    bw = x_c04.run_presented(app, rq, "wsgi", [])
+    ba = x_c04.run_presented(app, rq, "asgi", [])
+    vw = x_c04.run_presented(app, rq, "wsgi", wf) if wf else bw
+    va = x_c04.run_presented(app, rq, "asgi", af) if af else ba
+    ctx = f"app {case['name']!r} request {core.to_jsonable(rq)!r}"
+    status = None
+    if wf:
+        status = compare_runs(r, {"wsgi": vw, "asgi": ba}, f"{ctx}: environ variant {wf!r} against the plain scope")
+    if af:
+        status = compare_runs(r, {"wsgi": bw, "asgi": va}, f"{ctx}: plain environ against scope variant {af!r}")
+    if wf and af:
+        compare_runs(r, {"wsgi": vw, "asgi": va}, f"{ctx}: environ variant {wf!r} against scope variant {af!r}")
+    r.weight = 4
+    r.nontrivial = bool(bw[2].calls) or status in (200, 206, 304, 307)
+    r.label(f"app={case['name']}", *[f"wsgi:{f}" for f in wf], *[f"asgi:{f}" for f in af])
+    return r
+
+
+def oracle_sequences(case) -> Result:
+    r = Result()
+    rq, ops = case["request"], case["ops"]
+    out = {}
+    for side in ("wsgi", "asgi"):
+        built = x_c04.build_seq_app(side, ops)
+        if side == "wsgi":
+            run = gw.call_wsgi(built.app, {**rq, "body": [c for c in rq["body"] if c]})
+            heads = list(run.headers)
+        else:
+            run = gw.call_asgi(built.app, rq)
+            heads = [(k.decode("latin-1"), v.decode("latin-1")) for k, v in run.headers]
+        out[side] = (run, heads, built)
+    compare_runs(r, out, f"accessor sequence {ops!r} on {case['body_kind']!r} body, request {core.to_jsonable(rq)!r}")
+    ws = out["wsgi"][2].stash
+    if ws:
+        for op, val in ws[0]["steps"]:
+            r.label(f"{op}={'raises' if isinstance(val, str) and val.startswith('!') else 'value'}")
+    r.nontrivial = len(ops) > 1
+    r.label(f"kind={case['body_kind']}", f"len={len(ops)}")
+    return r
+
+
+def oracle_bulk(case) -> Result:
+    r = Result()
+    spec = case["spec"]
+    headers, body = x_c04.bulk_body(spec)
+    rq = gw.areq(method="POST", path="/", headers=headers, body=x_c04.slices(body, case.get("slice")))
+    out = run_pair({"app": "echo", "order": case["order"]}, rq)
+    compare_runs(r, out, f"bulk body {spec!r} in slices of {case.get('slice')!r} read with {case['order']!r}")
+    ws = out["wsgi"][2].stash
+    if ws:
+        for k in case["order"]:
+            v = ws[0].get(k)
+            r.label(f"{spec['kind']}:{k}={v if isinstance(v, str) else 'value'}")
+            if k == "form" and isinstance(v, list):
+                r.label(f"items={len(v)}")
+    r.nontrivial = True
+    r.note = {"body_bytes": len(body)}
+    return r
+
+
+def oracle_history(case) -> Result:
+    r = Result()
+    h = x_c04.StaticHistory(case["kind"], case["tree"], case.get("mount"), case.get("handle_404", False))
+    try:
+        remembered = {}
+        for i, step in enumerate(case["steps"]):
+            if step[0] != "req":
+                h.fs(step)
+                continue
+            path, conds = step[1], step[2]
+            hs = []
+            for name, src in conds:
+                if src[0] == "literal":
+                    hs.append([name, src[1]])
+                elif src[0] == "from" and remembered.get(src[1], {}).get(src[2]):
+                    hs.append([name, remembered[src[1]][src[2]]])
+            rq = gw.areq(method=step[3] if len(step) > 3 else "GET", path=(case.get("mount") or "") + path, headers=hs)
+            out = h.request(rq)
+            st = compare_runs(r, out, f"history {case['name']!r} step {i} {step!r} (headers {hs!r})")
+            remembered[i] = {k.lower(): v for k, v in out["wsgi"][1]}
+            r.label(f"step-status={st}")
+        r.nontrivial = True
+        r.weight = sum(1 for s_ in case["steps"] if s_[0] == "req")
+        r.label(f"history={case['name']}")
+    finally:
+        h.close()
+    return r
+
+
+def oracle_reuse(case) -> Result:
+    """One response object used as application for a sequence of requests (a module-level response is a common
+    way to write a fixed answer): every answer of the sequence must be the same on both interfaces."""
+    r = Result()
+    apps = {side: recipes.build_app({"app": "response", "response": case["response"]}, side) for side in ("wsgi", "asgi")}
+    for i, rq in enumerate(case["requests"]):
+        out = {}
+        for side in ("wsgi", "asgi"):
+            if side == "wsgi":
+                run = gw.call_wsgi(apps[side].app, rq)
+                heads = list(run.headers)
+            else:
+                run = gw.call_asgi(apps[side].app, rq)
+                heads = [(k.decode("latin-1"), v.decode("latin-1")) for k, v in run.headers]
+            out[side] = (run, heads, recipes.Built(None))
+        compare_runs(r, out, f"response object {case['response']!r} reused: request {i} of {[(q['method'], q['headers']) for q in case['requests']]!r}", kind=case["response"]["kind"])
+    r.weight = len(case["requests"])
+    r.nontrivial = len(case["requests"]) > 1
+    r.label(f"kind={case['response']['kind']}")
+    return r
+
+
+SUBS = {"reuse": oracle_reuse, "inm_lines": oracle_conditional, "echo": oracle_echo, "responses": oracle_responses, "apps": oracle_apps, "conditional": oracle_conditional, "filegrid": oracle_responses,
+        "presentations": oracle_presentations, "sequences": oracle_sequences, "ctor": oracle_responses, "bulk": oracle_bulk, "mounts": oracle_apps,
+        "static": oracle_apps, "history": oracle_history}
 
 # ------------------------------------------------------------------------------------------
 # generators
@@ -284,6 +446,13 @@ HEADER_VALUES = {
     "X-Custom": ["1", "a, b", "é", ""],
     "User-Agent": ["curl/8", "Mozilla/5.0 (X11; Linux) é"],
     "Accept-Language": ["en", "de, en;q=0.5"],
+    # names that stress the CGI-variable <-> header-name mapping of the WSGI side
+    "X-HTTP-Method-Override": ["PUT", "delete"],
+    "HTTP2-Settings": ["AAMAAABkAAQCAAAAAAIAAAAA"],
+    "Content-MD5": ["Q2hlY2sgSW50ZWdyaXR5IQ=="],
+    "Content-Encoding": ["gzip", "identity"],
+    "X-Content-Type": ["a/b"],
+    "Http-Https": ["1"],
 }
 
 _path = st.one_of(
@@ -335,6 +504,7 @@ def _body(draw, ctype):
             while b"--XbX" in p["content"]:
                 p["content"] = p["content"].replace(b"--XbX", b"")
         raw = mref.encode(form)
+        _FORCED["form_charset"] = form["charset"]
     else:
         raw = draw(st.binary(max_size=40))
     mode = draw(st.integers(0, 5))
@@ -358,8 +528,10 @@ def requests(draw, methods=("GET", "POST", "PUT", "HEAD", "DELETE")):
     headers = [[n, draw(st.sampled_from(HEADER_VALUES[n]))] for n in names]
     if draw(st.integers(0, 3)) == 0:
         # a header sent on several lines (the WSGI server joins them with ", ", the ASGI scope keeps the lines)
-        rep = draw(st.sampled_from(["Accept", "Accept-Language", "X-Custom", "X-Forwarded-For", "Cache-Control", "Via"]))
+        # (If-None-Match is list-valued as well; If-Modified-Since and Range are not and stay on one line)
+        rep = draw(st.sampled_from(["Accept", "Accept-Language", "X-Custom", "X-Forwarded-For", "Cache-Control", "Via", "If-None-Match"]))
         vals = {"Accept": ["text/html", "application/json;q=0.9", "*/*;q=0.1"], "Accept-Language": ["de", "en;q=0.5"], "X-Custom": ["1", "2", "3"],
+                "If-None-Match": draw(st.permutations(['"abc"', 'W/"def"', '"nope"', "*"])),
                 "X-Forwarded-For": ["10.0.0.1", "192.168.0.7"], "Cache-Control": ["no-cache", "no-store"], "Via": ["1.1 a", "1.1 b"]}[rep]
         headers = [h for h in headers if h[0] != rep] + [[rep, v] for v in vals[: draw(st.integers(2, 3))]]
     ctype = next((v for k, v in headers if k == "Content-Type"), "")
@@ -371,6 +543,10 @@ def requests(draw, methods=("GET", "POST", "PUT", "HEAD", "DELETE")):
         "urlencoded": ["application/x-www-form-urlencoded", "application/x-www-form-urlencoded; charset=utf-8", "application/x-www-form-urlencoded"],
         "multipart": ['multipart/form-data; boundary="XbX"', "multipart/form-data; boundary=XbX", "multipart/form-data; boundary=XbX; charset=utf-8"],
     }
+    if _FORCED.get("form_charset"):
+        # the charset the form really uses, declared (so that field names and values decode on both sides alike)
+        cs = _FORCED.pop("form_charset")
+        matching["multipart"] = matching["multipart"] + [f"multipart/form-data; boundary=XbX; charset={cs}", f"multipart/form-data; charset={cs}; boundary=XbX"]
     forced = _FORCED.pop("ctype", None)
     if forced is not None:
         headers = [h for h in headers if h[0] != "Content-Type"] + [["Content-Type", forced]]
@@ -401,6 +577,20 @@ def echo_case(draw):
 @st.composite
 def response_case(draw):
     recipe = draw(gen.response_recipes())
+    if recipe["kind"] == "json" and draw(st.booleans()):
+        recipe.update(draw(st.fixed_dictionaries({}, optional={"indent": st.sampled_from([0, 1, 4]), "sort_keys": st.booleans(), "ensure_ascii": st.booleans()})))
+    if recipe["kind"] == "sse" and draw(st.integers(0, 2)) == 0:
+        recipe["charset"] = draw(st.sampled_from(["latin-1", "utf-16", "cp1252"]))  # every generated event text is Latin-1
+    if draw(st.integers(0, 5)) == 0:
+        # the caller's own framing headers
+        own = draw(st.dictionaries(st.sampled_from(["Content-Type", "content-type", "Content-Length", "Location", "Content-Disposition", "Last-Modified", "Accept-Ranges"]),
+                                   st.sampled_from(["text/csv", "3", "0", "/own", "inline", "x/y; charset=utf-16"]), min_size=1, max_size=2))
+        if len({k.lower() for k in own}) == len(own):
+            recipe["headers"] = {**recipe.get("headers", {}), **own}
+    if recipe.get("cookies") and draw(st.booleans()):
+        for c in recipe["cookies"]:
+            if not c.get("delete"):
+                c["path"] = draw(st.sampled_from(["/", "/app", "/a b", ""]))
     rq, _ = draw(requests(methods=("GET", "GET", "HEAD", "POST")))
     if recipe["kind"] != "file":
         rq["headers"] = [h for h in rq["headers"] if h[0] not in ("Range", "If-Range")]
@@ -423,7 +613,10 @@ def leaf(draw):
                 "decorators": draw(st.lists(st.sampled_from(["identity", "add"]), max_size=1))}
     if kind in ("view", "response"):
         return {"app": kind, "response": draw(gen.response_recipes(kinds=("empty", "plain", "json", "redirect", "stream", "file"))), "label": draw(st.sampled_from(["r1", "r2"]))}
-    return {"app": kind, "tree": TREE, "cacheability": draw(st.sampled_from(["public", "private", "no-cache"])), "max_age": draw(st.sampled_from([0, 600]))}
+    out = {"app": kind, "tree": TREE, "cacheability": draw(st.sampled_from(["public", "private", "no-cache", "no-store"])), "max_age": draw(st.sampled_from([0, 600]))}
+    if draw(st.integers(0, 2)) == 0:
+        out["handle_404"] = draw(st.sampled_from([{"app": "response", "response": {"kind": "plain", "content": "custom 404", "status": 404}, "label": "nf"}, {"app": "echo", "order": ["body"], "label": "nf-echo"}]))
+    return out
 
 
 @st.composite
@@ -437,10 +630,12 @@ def app_case(draw):
         mounts = [[draw(st.sampled_from(["", "/a", "/a/b", "/é", "/static"])), draw(leaf())] for _ in range(draw(st.integers(1, 3)))]
         app = {"app": "subpaths", "mounts": mounts}
     elif shape == "hosts":
-        table = [[draw(st.sampled_from([r"example\.com", r"(www\.)?example\.com(:\d+)?", r".*", r"\[::1\]:8000"])), draw(leaf())] for _ in range(draw(st.integers(1, 3)))]
+        table = [[draw(st.sampled_from([r"example\.com", r"(www\.)?example\.com(:\d+)?", r".*", r"\[::1\]:8000", r"testserver", r"example\.org(:443)?", r"127\.0\.0\.1", r""])), draw(leaf())] for _ in range(draw(st.integers(1, 3)))]
         app = {"app": "hosts", "table": table}
     elif shape in ("files", "pages"):
         app = {"app": shape, "tree": TREE}
+        if draw(st.integers(0, 3)) == 0:
+            app["handle_404"] = {"app": "response", "response": {"kind": "plain", "content": "custom 404", "status": 404}, "label": "nf"}
         if draw(st.booleans()):
             app = {"app": "subpaths", "mounts": [["/static", app], ["", {"app": "response", "response": {"kind": "plain", "content": "fallback"}}]]}
     elif shape == "router-in-router":
@@ -461,8 +656,9 @@ def app_case(draw):
         prefix = "/static" if app["app"] == "subpaths" else ""
         rq["path"] = prefix + draw(st.sampled_from(["/", "/file.txt", "/p", "/p.html", "/dir", "/dir/", "/dir/a.txt", "/é.txt", "/empty.bin", "/d2", "/d2/", "/d2/x", "/missing", "/index.html", "/dir/index.html", "/file.txt/", "/../file.txt"]))
         if draw(st.integers(0, 2)) == 0:
-            cond = draw(st.sampled_from([["If-None-Match", "*"], ["If-Modified-Since", "Fri, 31 Dec 2100 23:59:59 GMT"], ["If-None-Match", '"nope"'], ["Range", "bytes=0-3"], ["Range", "bytes=0-0,5-"]]))
-            rq["headers"] = [h for h in rq["headers"] if h[0] not in ("If-None-Match", "If-Modified-Since", "Range", "If-Range")] + [cond]
+            cond = draw(st.sampled_from([["If-None-Match", "*"], ["If-Modified-Since", "Fri, 31 Dec 2100 23:59:59 GMT"], ["If-None-Match", '"nope"'], ["Range", "bytes=0-3"], ["Range", "bytes=0-0,5-"], None]))
+            lines = [cond] if cond is not None else [["If-None-Match", v] for v in draw(st.permutations(['"nope"', "*", 'W/"x"']))[: draw(st.integers(2, 3))]]
+            rq["headers"] = [h for h in rq["headers"] if h[0] not in ("If-None-Match", "If-Modified-Since", "Range", "If-Range")] + lines
     if shape == "router-in-router" and draw(st.integers(0, 4)) > 0:
         rq["path"] = draw(st.sampled_from(["/o/x/i/42", "/o/x/s/bob", "/o/é/i/7", "/o/x/zzz/y", "/o/x/i/notint", "/o/x/", "/other"]))
     if shape == "hosts" and draw(st.integers(0, 3)) > 0:
@@ -490,17 +686,309 @@ def file_grid(quick):
         for rng in ranges:
             for method in ("GET", "HEAD"):
                 for as_view in (False, True):
-                    headers = [] if rng is None else [["Range", rng]]
-                    yield {"response": {"kind": "file", "name": "f.txt", "size": size, "chunk": chunk}, "request": gw.areq(method=method, path="/", headers=headers), "as_view": as_view}
+                    for zerocopy in (False, True):  # the ASGI server offers the zero-copy send extension or not
+                        headers = [] if rng is None else [["Range", rng]]
+                        yield {"response": {"kind": "file", "name": "f.txt", "size": size, "chunk": chunk},
+                               "request": gw.areq(method=method, path="/", headers=headers, extensions=_ZC if zerocopy else None), "as_view": as_view}
+
+
+# ------------------------------------------------------------------------------------------
+# enumerated sub-checks added after the injection review (see RULES)
+
+_ZC = {"http.response.zerocopysend": {}}
+
+
+def _e(label, order=()):
+    return {"app": "echo", "order": list(order), "label": label}
+
+
+def presentation_cases(quick):
+    e_body = _e("e", ["body", "form"])
+    e_json = _e("j", ["json", "body"])
+    apps = [
+        ("echo", e_body),
+        ("echo-json", e_json),
+        ("mount-echo", {"app": "subpaths", "mounts": [["/m", e_body], ["", _e("d", ["body"])]]}),
+        ("nested-mount", {"app": "subpaths", "mounts": [["/m", {"app": "subpaths", "mounts": [["/n", e_json], ["", e_body]]}]]}),
+        ("router-echo", {"app": "router", "routes": [["/m/{p}", e_body], ["/{rest:any}", e_json]]}),
+        ("hosts-echo", {"app": "hosts", "table": [[r"example\.com(:\d+)?", e_body], [r".*", e_json]]}),
+        ("mw-echo", {"app": "middleware", "kind": "add", "inner": e_body}),
+        ("decorated-echo", {"app": "echo", "order": ["form", "body"], "label": "dec", "decorators": ["add"]}),
+        ("pages-mounted", {"app": "subpaths", "mounts": [["/m", {"app": "pages", "tree": TREE}]]}),
+        ("files", {"app": "files", "tree": TREE}),
+        ("pages", {"app": "pages", "tree": TREE}),
+        ("file-response", {"app": "response", "response": {"kind": "file", "name": "f.txt", "size": 64, "chunk": 5}}),
+    ]
+    mp = mref.encode({"boundary": "XbX", "charset": "utf-8", "preamble": None, "epilogue": None, "padding": b"",
+                      "parts": [{"name": "t", "filename": None, "headers": [], "content": "Zoë".encode()}, {"name": "u", "filename": "a.bin", "headers": [["Content-Type", "image/png"]], "content": b"\x89PNG\r\n--Xb"}]})
+    odd = [["X-HTTP-Method-Override", "PUT"], ["HTTP2-Settings", "AAMAAABk"], ["Content-MD5", "Q2hlY2sgSW50ZWdyaXR5IQ=="], ["X-Http-Https", "1"]]
+    reqs = [
+        gw.areq(method="GET", path="/", client=None),
+        gw.areq(method="GET", path="/m/x", query=b"a=1&b=", scheme="https", server=["example.org", 443], headers=odd[:2]),
+        gw.areq(method="POST", path="/m/n/y", root_path="/root", headers=[["Content-Type", "application/json"]] + odd[2:], body=[b'{"a":', b"", b' "\xc3\xa9"}'], client=["::1", 1]),
+        gw.areq(method="POST", path="/m", headers=[["Content-Type", "application/x-www-form-urlencoded"], ["Content-Length", "11"]] + odd, body=[b"a=1&b=%C3%A9"[:11]], client=None),
+        gw.areq(method="POST", path="/m/dir", query=b"x=1", headers=[["Content-Type", "multipart/form-data; boundary=XbX"]], body=[mp[i:i + 7] for i in range(0, len(mp), 7)]),
+        gw.areq(method="GET", path="", root_path="/root", headers=[["Host", "example.com:8080"]]),
+        gw.areq(method="GET", path="/m/dir", query=b"x=1", headers=[["Host", "example.com:8080"], ["Accept", "text/html"]], scheme="https", client=None),
+        gw.areq(method="HEAD", path="/m/file.txt", headers=[["Range", "bytes=2-5"]]),
+        gw.areq(method="GET", path="/file.txt", headers=[["If-None-Match", "*"], ["Cookie", "a=1; b=2"]], root_path="/é"),
+        gw.areq(method="PUT", path="/m/é", query=b"q=%C3%A9", body=[b"", b"raw", b""], headers=[["Content-Type", "text/plain"]], client=None, root_path="/é"),
+    ]
+    pairs = [([], ["omit-scope"]), (["omit-empty"], ["omit-message"]), (["server-extras"], ["header-lists", "spec-2.0"]),
+             (["omit-empty", "server-extras"], ["omit-scope", "omit-message", "header-lists", "spec-2.0"])]
+    for name, app in apps:
+        for rq in reqs:
+            for wf, af in pairs:
+                yield {"name": name, "app": app, "request": rq, "wsgi_flags": wf, "asgi_flags": af}
+
+
+def sequence_cases(quick):
+    import itertools
+
+    mp = mref.encode({"boundary": "XbX", "charset": "utf-8", "preamble": None, "epilogue": None, "padding": b"",
+                      "parts": [{"name": "t", "filename": None, "headers": [], "content": "café".encode()},
+                                {"name": "u", "filename": "a.txt", "headers": [["Content-Type", "text/plain"], ["X-Extra", "1"]], "content": b"upload\r\nbytes"},
+                                {"name": "t", "filename": None, "headers": [], "content": b"2"}]})
+    mp_gbk = mref.encode({"boundary": "XbX", "charset": "gbk", "preamble": None, "epilogue": None, "padding": b"",
+                          "parts": [{"name": "字段", "filename": None, "headers": [], "content": "中文值".encode("gbk")}, {"name": "f", "filename": "文件.txt", "headers": [], "content": b"\xd6\xd0"}]})
+    bodies = [
+        ("none", [], [b""]),
+        ("json", [["Content-Type", "application/json"]], [b'{"a": "\xc3', b'\xa9", "n": [1, 2.5, null]}']),
+        ("urlencoded", [["Content-Type", "application/x-www-form-urlencoded"]], [b"a=1&b=%C3%A9", b"&a=3&empty=&=x&&b"]),
+        ("urlencoded-utf8", [["Content-Type", "application/x-www-form-urlencoded; charset=utf-8"]], [b"b=\xc3\xa9&empty="]),
+        ("urlencoded-undecodable", [["Content-Type", "application/x-www-form-urlencoded; charset=utf-8"]], [b"x=\xe9"]),
+        ("json-latin1", [["Content-Type", "application/json; charset=latin-1"]], ['{"k": "é"}'.encode("latin-1")]),
+        ("multipart", [["Content-Type", "multipart/form-data; boundary=XbX"]], [mp[i:i + 11] for i in range(0, len(mp), 11)]),
+        ("badjson", [["Content-Type", "application/json"]], [b"{"]),
+        ("multipart-gbk", [["Content-Type", "multipart/form-data; charset=gbk; boundary=XbX"]], [mp_gbk[:30], mp_gbk[30:]]),
+        ("multipart-no-boundary", [["Content-Type", "multipart/form-data"]], [mp]),
+    ]
+    ops = ["body", "json", "form", "stream"]
+    seqs = [list(t) for n in (1, 2, 3) for t in itertools.product(ops, repeat=n)]
+    seqs += [["close"], ["close", "form"], ["form", "close"], ["form", "close", "form"], ["form", "form", "close"], ["form", "close", "body"], ["form", "close", "stream"],
+             ["json!"], ["form!"], ["body", "json!"], ["body", "form!"], ["stream", "body!"], ["form", "form!"],  # '!': the exception leaves the view
+             ["stream", "close"], ["body", "close", "form"], ["json", "close", "json"], ["close", "close"], ["form", "close", "close"], ["form", "form", "form", "form"]]
+    for kind, headers, body in bodies:
+        for method in ("POST",) if quick else ("POST", "GET"):
+            for seq in seqs:
+                yield {"ops": seq, "body_kind": kind, "request": gw.areq(method=method, path="/s", headers=headers, body=body)}
+
+
+def oracle_ctor(case) -> Result:
+    r = oracle_responses(case)
+    r.nontrivial = True
+    r.label(f"ctor={case['name']}")
+    return r
+
+
+def ctor_cases(quick):
+    doc = {"b": [1, {"é": "ü", "a": None}], "a": "中", "z": {"y": 1.5, "x": []}}
+    own = [{"Content-Type": "text/csv"}, {"content-type": "application/problem+json; charset=utf-16"}, {"Content-Length": "3"}, {"content-length": "42", "Content-Type": "x/y"},
+           {"Location": "/elsewhere"}, {"ETag": '"mine"', "Last-Modified": "Thu, 01 Jan 1970 00:00:00 GMT", "Content-Disposition": "inline", "Accept-Ranges": "none"}]
+    edits = [[["set", "Content-Type", "text/csv"]], [["setdefault", "content-type", "a/b"], ["append", "Content-Type", "c/d"]], [["set", "content-length", "7"]],
+             [["append", "Content-Length", "1"]], [["del", "content-type"], ["del", "content-length"]], [["update", [["Content-Type", "e/f"], ["Content-Length", "0"]]]]]
+    recipes_ = []
+    for kw in ({"indent": 2}, {"indent": 0}, {"indent": 4, "sort_keys": True}, {"sort_keys": True}, {"ensure_ascii": True}, {"ensure_ascii": True, "indent": 1, "sort_keys": True}):
+        for content in (doc, [doc, "é"], "é", []):
+            recipes_.append((f"json-kw:{sorted(kw)}", {"kind": "json", "content": content, **kw}))
+    for content in ([1.5, float("nan")], {"a": float("inf")}, [float("-inf")]):  # not JSON: refused by default on both sides
+        recipes_.append(("json-nan", {"kind": "json", "content": content}))
+    bases = [
+        ("empty", {"kind": "empty"}), ("empty-204", {"kind": "empty", "status": 204}),
+        ("plain", {"kind": "plain", "content": "abc"}), ("plain-empty", {"kind": "plain", "content": ""}), ("plain-bytes", {"kind": "plain", "content": b"\xff\x00"}),
+        ("plain-charset", {"kind": "plain", "content": "é", "charset": "latin-1", "media_type": "text/csv"}),
+        ("html", {"kind": "html", "content": "<b>é</b>"}), ("json", {"kind": "json", "content": doc}), ("json-404", {"kind": "json", "content": None, "status": 404}),
+        ("redirect", {"kind": "redirect", "url": "/é?x=1"}), ("redirect-301", {"kind": "redirect", "url": "https://example.org/", "status": 301}),
+        ("stream", {"kind": "stream", "chunks": [b"ab", b"", b"cdef"]}), ("stream-ct", {"kind": "stream", "chunks": [b"x"], "content_type": "text/plain"}),
+        ("sse", {"kind": "sse", "events": [{"data": "x"}]}),
+        ("file", {"kind": "file", "name": "f.txt", "size": 12, "chunk": 5}), ("file-download", {"kind": "file", "name": "data", "size": 5, "chunk": 64, "download_name": "naïve.txt"}),
+    ]
+    for name, base in bases:
+        recipes_.append((name, base))
+        for h in own:
+            recipes_.append((f"{name}+own:{sorted(k.lower() for k in h)}", {**base, "headers": h}))
+        for ops in edits:
+            recipes_.append((f"{name}+edit:{ops[0][0]}", {**base, "header_ops": ops}))
+        recipes_.append((f"{name}+own+edit", {**base, "headers": {"Content-Type": "text/csv", "X-A": "1"}, "header_ops": [["append", "content-type", "q/r"], ["del", "x-a"]]}))
+    for cs, texts in (("latin-1", ["é", "a\nü"]), ("gbk", ["中文", "x"]), ("utf-16", ["é"]), ("utf-8", ["日本"])):
+        events = [{"data": t, "event": texts[0]} for t in texts] + [{"event": "only-event"}, {"id": "7", "retry": 10}, {"data": ""}, {"data": "l1\r\nl2\rl3"}]
+        recipes_.append((f"sse-charset:{cs}", {"kind": "sse", "events": events, "charset": cs}))
+        recipes_.append((f"sse-charset+headers:{cs}", {"kind": "sse", "events": events, "charset": cs, "status": 201, "headers": {"Cache-Control": "no-store", "X-Accel-Buffering": "no", "content-type": "text/plain"}}))
+    cookies = [
+        [{"name": "sid", "value": "v", "path": "/app"}], [{"name": "sid", "value": "v", "path": "/app/x y", "domain": "example.com", "secure": True, "httponly": True, "samesite": "strict", "max_age": 60, "expires": 3600}],
+        [{"name": "sid", "value": "1"}, {"name": "sid", "value": "2", "path": "/b"}, {"name": "SID", "value": "3"}], [{"name": "gone", "delete": True}, {"name": "gone", "value": "again"}],
+        [{"name": "q", "value": 'a"b\\c;d,e f'}, {"name": "n", "value": "", "samesite": "none"}],
+    ]
+    for i, cl in enumerate(cookies):
+        for name, base in bases[:1] + bases[2:3] + bases[9:10] + bases[11:12] + bases[13:15]:
+            recipes_.append((f"cookies{i}:{name}", {**base, "cookies": cl}))
+    for name, recipe in recipes_:
+        for method in ("GET", "HEAD"):
+            for as_view in (False, True):
+                yield {"name": name, "response": recipe, "request": gw.areq(method=method, path="/", headers=[["Accept", "*/*"]]), "as_view": as_view}
+
+
+def bulk_cases(quick):
+    K = 1024
+    cases = [
+        ({"kind": "fields", "n": 323}, None, ["form"]), ({"kind": "fields", "n": 324}, None, ["form"]), ({"kind": "fields", "n": 325}, None, ["form"]),
+        ({"kind": "files", "n": 324}, 4096, ["form"]), ({"kind": "files", "n": 325}, None, ["form"]), ({"kind": "mixed", "n": 324}, 1000, ["form"]), ({"kind": "mixed", "n": 326}, 64 * K, ["form"]),
+        ({"kind": "bigfield", "sizes": [K * K + 16]}, 64 * K, ["form"]), ({"kind": "bigfield", "sizes": [600 * K, 600 * K]}, 256 * K, ["form"]),
+        ({"kind": "bigfile", "sizes": [K * K + 5]}, 64 * K, ["form"]), ({"kind": "bigfile", "sizes": [2 * K * K + 1, 10]}, None, ["form"]), ({"kind": "bigfile", "sizes": [K * K, K * K - 1]}, 100 * K, ["form"]),
+        ({"kind": "bigfile", "sizes": [400 * K]}, 1000, ["form"]), ({"kind": "bigfield", "sizes": [400 * K]}, 1000, ["form"]),
+        ({"kind": "raw", "size": 70000}, None, ["body", "stream"]), ({"kind": "raw", "size": 3 * 65536}, 65536, ["stream"]), ({"kind": "raw", "size": 200000}, 65537, ["body"]),
+        ({"kind": "urlencoded", "n": 2000, "width": 40}, None, ["form", "body"]), ({"kind": "json", "n": 500, "width": 100}, 65536, ["json"]),
+    ]
+    if not quick:
+        cases += [({"kind": "fields", "n": n}, sl, ["form"]) for n in (322, 324, 325, 400, 1000) for sl in (1000, 4096, 65536)]
+        cases += [({"kind": "bigfield", "sizes": [K * K - 200 + d]}, 64 * K, ["form"]) for d in range(0, 400, 50)]
+        cases += [({"kind": "bigfile", "sizes": [K * K - 2 + d]}, sl, ["form"]) for d in range(5) for sl in (None, 64 * K, K * K)]
+        cases += [({"kind": "raw", "size": 65536 * k + d}, sl, ["body"]) for k in (1, 2) for d in (-1, 0, 1) for sl in (None, 65536, 65535)]
+    for spec, sl, order in cases:
+        yield {"spec": spec, "slice": sl, "order": order}
+
+
+TREE2 = {"index.html": b"<root>", "dé/index.html": b"<de>", "dé/a.txt": b"A", "sp ace/index.html": b"<sp>", "q?d/index.html": b"<q>", "pc%20t/index.html": b"<pc>",
+         "h#sh/x.txt": b"x", "n.html": b"<n>", "plain/b.txt": b"B", "日本/語.txt": b"nihon",
+         "dd.html/x.txt": b"in a directory whose name ends in .html", "w.html.html": b"<w>", "idx/index.html/keep.txt": b"index.html is a directory here"}
+TREE_BIG = {"big.bin": recipes.pattern(300000), "dir/index.html": b"<dir>"}  # one file longer than the default chunk of the file response (256 KiB)
+
+
+def mount_cases(quick):
+    e1, e2, e3, e4 = _e("e1"), _e("e2"), _e("e3"), _e("e4")
+    tables = [
+        [["/é", e1], ["/a/b", e2], ["/a", e3], ["", e4]],
+        [["/a", e1], ["/a/b", e2]],
+        [["/é", {"app": "subpaths", "mounts": [["/ü", e1], ["", e2]]}], ["/x y", e3]],
+        [["/é", {"app": "router", "routes": [["/u/{p}", e1], ["/{rest:any}", e2]]}]],
+        [["", e1]],
+        [["/日本", {"app": "subpaths", "mounts": [["/語", e1]]}], ["/日", e2]],
+        [["/é", {"app": "middleware", "kind": "add", "inner": e1}], ["", {"app": "response", "response": {"kind": "redirect", "url": "/é/"}}]],
+    ]
+    paths = ["", "/", "/é", "/é/", "/é/x", "/éx", "/é/ü", "/é/ü/z", "/é/u/v", "/a", "/a/b", "/a/b/c", "/a/bc", "/ab", "/x y", "/x y/z", "/日本/語/k", "/日本/語", "/日本語", "/日/本"]
+    for t in tables:
+        for path in paths:
+            for root in ("", "/r", "/é"):
+                yield {"app": {"app": "subpaths", "mounts": t}, "request": gw.areq(method="GET", path=path, query=b"q=1", root_path=root, headers=[["Accept", "text/html"]])}
+    hosts = [
+        [[r"testserver", e1], [r"example\.org(:\d+)?", e2]],
+        [[r"", e1], [r".+", e2]],
+        [[r"127\.0\.0\.1(:8000)?", e1]],
+        [[r"(?i)example\.org", e1], [r"[a-z.]+", e2]],
+    ]
+    for t in hosts:
+        for host in (None, "testserver", "example.org", "example.org:443", "EXAMPLE.org", "127.0.0.1:8000", "127.0.0.1", ""):
+            for server in (["testserver", 80], ["example.org", 443], ["127.0.0.1", 8000]):
+                headers = [] if host is None else [["Host", host]]
+                yield {"app": {"app": "hosts", "table": t}, "request": gw.areq(method="GET", path="/h", headers=headers, server=server, scheme="https" if server[1] == 443 else "http")}
+
+
+def static_cases(quick):
+    nf = {"app": "response", "response": {"kind": "plain", "content": "custom 404", "status": 404}, "label": "nf"}
+    apps = [
+        ("", {"app": "files", "tree": TREE2}), ("", {"app": "pages", "tree": TREE2}),
+        ("", {"app": "pages", "tree": TREE2, "handle_404": nf}), ("", {"app": "files", "tree": TREE2, "handle_404": _e("nf-echo")}),
+        ("/é", {"app": "subpaths", "mounts": [["/é", {"app": "pages", "tree": TREE2}]]}),
+        ("/static", {"app": "subpaths", "mounts": [["/static", {"app": "files", "tree": TREE2, "handle_404": nf}]]}),
+    ]
+    paths = ["/", "/dé", "/dé/", "/dé/a.txt", "/sp ace", "/q?d", "/pc%20t", "/h#sh/x.txt", "/h#sh", "/n", "/n.html", "/plain", "/plain/", "/missing", "/missing/", "/dé/missing",
+             "/../x", "/index.html/", "/日本", "/日本/語.txt", "/dd", "/dd/", "/dd.html", "/dd.html/x.txt", "/w", "/w.html", "/idx", "/idx/", "/idx/index.html"]
+    shapes = [("GET", [], False), ("GET", [], True), ("HEAD", [], False), ("GET", [["If-None-Match", "*"]], False), ("GET", [["Range", "bytes=-5"]], True), ("GET", [["Range", "bytes=1-2,4-"]], True),
+              ("GET", [["If-Modified-Since", "Fri, 31 Dec 2100 23:59:59 GMT"]], True)]
+    big = [("GET", [], False), ("GET", [], True), ("GET", [["Range", "bytes=262140-262149"]], True), ("GET", [["Range", "bytes=262140-262149"]], False),
+           ("GET", [["Range", "bytes=0-0,262143-262145,299999-"]], True), ("GET", [["Range", "bytes=0-0,262143-262145,299999-"]], False), ("GET", [["Range", "bytes=100-"]], True), ("HEAD", [], True)]
+    for kind in ("files", "pages"):
+        for method, headers, zc in big:
+            yield {"app": {"app": kind, "tree": TREE_BIG}, "request": gw.areq(method=method, path="/big.bin", headers=headers, extensions=_ZC if zc else None)}
+    for prefix, app in apps:
+        for path in paths:
+            for method, headers, zc in shapes:
+                for root, query in (("", b""), ("/é", b"a=1")) if path in ("/dé", "/sp ace", "/q?d", "/plain", "/missing", "/日本") else (("", b""),):
+                    yield {"app": app, "request": gw.areq(method=method, path=prefix + path, query=query, headers=headers, root_path=root, extensions=_ZC if zc else None)}
+
+
+def reuse_cases(quick):
+    def rq(method="GET", rng=None, zc=False):
+        return gw.areq(method=method, path="/", headers=[] if rng is None else [["Range", rng]], extensions=_ZC if zc else None)
+
+    file_seqs = [
+        [rq(), rq(rng="bytes=2-5"), rq(), rq("HEAD"), rq(rng="bytes=0-0,5-9"), rq(), rq(rng="junk"), rq(), rq(rng="bytes=999-"), rq("HEAD"), rq()],
+        [rq(rng="bytes=-3", zc=True), rq(zc=True), rq(rng="bytes=1-2,4-", zc=True), rq(zc=True)],
+        [rq(rng="bytes=999-"), rq(rng="bytes=0-1")],
+    ]
+    for recipe in ({"kind": "file", "name": "f.txt", "size": 64, "chunk": 5}, {"kind": "file", "name": "data", "size": 12, "chunk": 64, "download_name": "d.bin", "headers": {"X-A": "1"}, "cookies": [{"name": "c", "value": "v"}]}):
+        for seq in file_seqs:
+            yield {"response": recipe, "requests": seq}
+    small = [{"kind": "plain", "content": "abc"}, {"kind": "plain", "content": "", "headers": {"Content-Length": "9"}}, {"kind": "json", "content": {"a": [1, "é"]}, "indent": 1},
+             {"kind": "empty", "status": 204}, {"kind": "empty", "cookies": [{"name": "c", "value": "v", "max_age": 5}]}, {"kind": "redirect", "url": "/é"}, {"kind": "html", "content": "<p>", "header_ops": [["append", "Vary", "Accept"]]}]
+    for recipe in small:
+        yield {"response": recipe, "requests": [rq(), rq("HEAD"), rq("POST"), rq()]}
+
+
+def inm_lines_cases(quick):
+    """If-None-Match on two and three lines: the file's own tag first / last / in the middle / absent, weak form, `*`, a list on
+    one of the lines, near-miss tags; alone and next to If-Modified-Since (which the entity tag overrides)."""
+    T0 = 1_500_000_000
+    arrangements = [["own-etag", "other"], ["other", "own-etag"], ["other", "other2"], ["own-etag", "own-etag"], ["weak-own", "other"], ["other", "weak-own"], ["other3", "other"],
+                    ["star", "other"], ["other", "star"], ["list", "other"], ["other", "list"], ["two-others", "own-etag"], ["two-others", "other"],
+                    ["own-etag", "other", "other2"], ["other", "own-etag", "other2"], ["other", "other2", "own-etag"], ["other", "other2", "other3"], ["other", "two-others", "weak-own"],
+                    ["two-others", "list", "other"], ["other3", "other2", "two-others"]]
+    targets = [({"app": "files", "tree": TREE}, "", "/file.txt"), ({"app": "pages", "tree": TREE}, "", "/dir/"), ({"app": "pages", "tree": TREE}, "", "/p"),
+               ({"app": "subpaths", "mounts": [["/static", {"app": "files", "tree": TREE}]]}, "/static", "/é.txt"),
+               ({"app": "subpaths", "mounts": [["/static", {"app": "pages", "tree": TREE}]]}, "/static", "/"),
+               ({"app": "response", "response": {"kind": "file", "size": 12, "name": "f.txt"}}, "", "/")]
+    for app, prefix, path in targets:
+        for arr in arrangements:
+            for extra in ([], [["ims", "after-both"]], [["ims", "before-both"]]):
+                for method in ("GET", "HEAD") if not extra else ("GET",):
+                    yield {"app": app, "prefix": prefix, "path": path, "mtime": T0, "ctime": T0 + 7, "conds": [["inm-lines", arr]] + extra, "method": method}
+
+
+def history_cases(quick):
+    T0 = 1_600_000_000
+    own = lambda step, name: ["from", step, name]  # noqa: E731 - the value of a response header of an earlier step
+    tree = {"f.txt": b"first version", "d/index.html": b"<d>", "p.html": b"<p>"}
+    scen = [
+        ("touch-then-ims", [["touch", "f.txt", T0, T0], ["req", "/f.txt", []], ["touch", "f.txt", T0 + 100, T0 + 100], ["req", "/f.txt", [["If-Modified-Since", own(1, "last-modified")]]],
+                            ["req", "/f.txt", [["If-None-Match", own(1, "etag")]]], ["req", "/f.txt", [["If-None-Match", own(3, "etag")]]]]),
+        ("rewrite-longer", [["req", "/f.txt", []], ["write", "f.txt", b"second version, longer"], ["req", "/f.txt", []], ["req", "/f.txt", [["Range", ["literal", "bytes=-6"]]]], ["req", "/f.txt", [], "HEAD"]]),
+        ("rewrite-shorter", [["touch", "f.txt", T0, T0], ["req", "/f.txt", [["Range", ["literal", "bytes=5-"]]]], ["write", "f.txt", b"v2"], ["touch", "f.txt", T0 + 1, T0 + 1], ["req", "/f.txt", [["Range", ["literal", "bytes=5-"]]]],
+                             ["req", "/f.txt", [["Range", ["literal", "bytes=0-"]], ["If-Range", own(1, "etag")]]]]),
+        ("delete", [["req", "/f.txt", []], ["delete", "f.txt"], ["req", "/f.txt", []], ["req", "/f.txt", [["If-None-Match", own(0, "etag")]]]]),
+        ("create", [["req", "/new.txt", []], ["write", "new.txt", b"now here"], ["req", "/new.txt", []], ["req", "/new.txt", [], "HEAD"]]),
+        ("create-dir", [["req", "/e", []], ["req", "/e/", []], ["write", "e/index.html", b"<e>"], ["req", "/e", []], ["req", "/e/", []], ["delete", "e/index.html"], ["req", "/e/", []]]),
+        ("html-fallback-appears", [["req", "/q", []], ["write", "q.html", b"<q>"], ["req", "/q", []], ["delete", "q.html"], ["req", "/q", []]]),
+        ("ctime-only", [["touch", "f.txt", T0, T0], ["req", "/f.txt", []], ["touch", "f.txt", T0, T0 + 500], ["req", "/f.txt", [["If-Modified-Since", own(1, "last-modified")]]], ["req", "/f.txt", [["If-None-Match", own(1, "etag")]]]]),
+        ("same-request-thrice", [["req", "/d/", []], ["req", "/d/", []], ["req", "/d", []], ["req", "/d/", [["If-None-Match", own(0, "etag")]]], ["req", "/p", []], ["req", "/p", []]]),
+    ]
+    for kind in ("files", "pages"):
+        for mount in (None, "/st"):
+            for h404 in (False, True):
+                for name, steps in scen:
+                    yield {"name": name, "kind": kind, "tree": tree, "mount": mount, "handle_404": h404, "steps": steps}
 
 
 def run(rec, only=None):
     quick = rec.tier == "quick"
-    core.drive_cases(rec, "filegrid", file_grid(quick), oracle_responses)
-    rec.exhaustive["filegrid"] = True
+    enumerated = [
+        ("filegrid", file_grid(quick), oracle_responses),
+        ("presentations", presentation_cases(quick), oracle_presentations),
+        ("sequences", sequence_cases(quick), oracle_sequences),
+        ("ctor", ctor_cases(quick), oracle_ctor),
+        ("mounts", mount_cases(quick), oracle_apps),
+        ("static", static_cases(quick), oracle_apps),
+        ("inm_lines", inm_lines_cases(quick), oracle_conditional),
+        ("history", history_cases(quick), oracle_history),
+        ("reuse", reuse_cases(quick), oracle_reuse),
+        ("bulk", bulk_cases(quick), oracle_bulk),
+    ]
+    for name, cases, oracle in enumerated:
+        core.drive_cases(rec, name, cases, oracle)
     core.drive_hypothesis(rec, "echo", echo_case(), oracle_echo, 1500 if quick else 40000)
     core.drive_hypothesis(rec, "responses", response_case(), oracle_responses, 1000 if quick else 25000, seed_offset=1)
     core.drive_hypothesis(rec, "apps", app_case(), oracle_apps, 1200 if quick else 30000, seed_offset=2)
     core.drive_hypothesis(rec, "conditional", conditional_case(), oracle_conditional, 500 if quick else 12000, seed_offset=3)
     for k in SUBS:
         rec.exhaustive[k] = False
+    for name, _cases, _oracle in enumerated:
+        rec.exhaustive[name] = True
